@@ -1,5 +1,6 @@
 """Harvest the corpus: every SQL text the repository's own tests feed to the analyser (tests/sql/**), with its dialect,
 plus the bundled TPC-DS queries.  The assertion helpers are replaced by recorders; nothing is asserted here."""
+from harness import REPO as _REPO
 import importlib
 import inspect
 import itertools
@@ -12,7 +13,7 @@ import warnings
 CACHE = None
 
 
-def harvest(repo="/repo"):
+def harvest(repo=_REPO):
     global CACHE
     if CACHE is not None:
         return CACHE
